@@ -87,8 +87,16 @@ def run_seed(sid, targets_all, full):
             res["check_out"] = [l[:300] for l in r.stdout.split("\n") if l.startswith(("VIOLATION", "  failed", "UNDECIDED", "CHECKER", meta["property"] + " ["))][:12]
             res["status"] = {0: "MISSED", 1: "detected", 2: "undecided", 3: "checker-error"}.get(r.returncode, "rc%d" % r.returncode)
             return res
+        # lemmas read the source themselves (attribute word, timestamps, placeholder, NUMBER lemmas): run them all
+        lem = subprocess.run(["python3-vt", "-c", "import sys; sys.path.insert(0,'.')\nfrom pyvc.run import load_contracts\nfrom pyvc.lemmas import prove_lemmas\nr=load_contracts()\nfor o in prove_lemmas(r.lemmas, 20000, False): print(o['verdict'], o['name'])"], cwd=HERE, env=env, capture_output=True, text=True, timeout=1200)
+        lem_bad = sorted({l.split(" ", 1)[1] for l in lem.stdout.split("\n") if l.startswith("refuted ")})
+        lem_unk = sorted({l.split(" ", 1)[1] for l in lem.stdout.split("\n") if l.startswith("unknown ")})
+        if lem.returncode != 0 and not lem_bad:
+            lem_unk.append("lemmas: " + (lem.stderr.strip().split("\n")[-1][:160] if lem.stderr.strip() else "failed"))
         if not tg:
-            res["status"] = "MISSED-no-contract"
+            res["refuted"] = lem_bad[:8]
+            res["unknown"] = lem_unk[:8]
+            res["status"] = "detected" if lem_bad else ("undecided" if lem_unk else "MISSED-no-contract")
             return res
         args = []
         for t in tg:
@@ -98,6 +106,8 @@ def run_seed(sid, targets_all, full):
         refuted = sorted({l.split()[1] for l in lines if l.startswith("     refuted")})
         unknown = sorted({l.split()[1] for l in lines if l.startswith("     unknown")})
         errs = [l[:260] for l in lines if (" error " in l or " undecided " in l) and not l.startswith("     ")]
+        refuted = sorted(set(refuted) | set(lem_bad))
+        unknown = sorted(set(unknown) | set(lem_unk))
         res["refuted"] = refuted[:8]
         res["unknown"] = unknown[:8]
         res["errors"] = errs[:4]
